@@ -1,14 +1,15 @@
 #!/usr/bin/env python3
 """seed_confirm.py <id> <seedname> <property> <demo-dest-relative-path> <go test pkg> <run pattern> [existing-test pkg pattern]
-Confirms a seeded change delivered in /tmp/m/<id>/out in the scratch worktree /tmp/m/wt_<id>:
+Confirms a seeded change delivered in $SEED_ROOT/<id>/out (default /tmp/m) in the scratch worktree $SEED_ROOT/wt_<id>:
  builds with the patch, demo FAILS with the patch, demo PASSES without it; optional existing tests pass with the patch;
 then runs /verif's check for <property> against /repo with the patch applied and records everything in
 /verif/seeded/<seedname>/ (patch.diff, demo, NOTES.md, meta.json)."""
 import json, os, shutil, subprocess, sys
 idn, seedname, prop, dest, pkg, pat = sys.argv[1:7]
 extra = sys.argv[7:9] if len(sys.argv) >= 9 else None
-wt = f"/tmp/m/wt_{idn}"
-out = f"/tmp/m/{idn}/out"
+ROOT = os.environ.get("SEED_ROOT", "/tmp/m")   # second round: SEED_ROOT=/tmp/m2
+wt = f"{ROOT}/wt_{idn}"
+out = f"{ROOT}/{idn}/out"
 env = dict(os.environ, GOFLAGS="-mod=mod", GOPROXY="off")
 def sh(cmd, cwd=wt, timeout=3000):
     p = subprocess.run(cmd, shell=True, cwd=cwd, env=env, stdout=subprocess.PIPE, stderr=subprocess.STDOUT, text=True, timeout=timeout)
